@@ -82,6 +82,7 @@ func execWorkload(dir string, w *Workload, sched simrt.Schedule, fsPlan *simrt.F
 	var obs *Observation
 	ex := Simulate(sched, fsPlan, pipelineMaxTicks, func() error {
 		var err error
+		opts.FinalPasses = w.FinalPasses
 		obs, err = RunPipeline(cfg, w.Params, opts)
 		return err
 	})
@@ -388,6 +389,9 @@ func init() {
 				w = GenCueImportsWorkload(r)
 			} else if r.Chance(2, 3) {
 				EnrichWorkload(r.Fork("enrich"), w, dir)
+			}
+			if sr := r.Side("final-passes"); sr.Chance(1, 6) {
+				AddFinalPasses(sr, w)
 			}
 			res := &CaseResult{}
 			base := simrt.Schedule{Default: simrt.Canonical}
